@@ -1,7 +1,7 @@
 (* Prop_C03.v — C03: total allocation: whenever the key comes back, every lock of that guard / call has
    already been released.  Call-level theorems in fault-free worlds for every shape (whole-history monitor
    statement: checked on every generated scenario; proof obligation in progress, see DESIGN.md). *)
-From HL Require Import Base Model Shape Algo Api OpsLemmas Lemmas ShapeLemmas ApiLemmas QuietLemmas Check Monitors Pf_Calls.
+From HL Require Import Base Model Shape Algo Api OpsLemmas Lemmas ShapeLemmas ApiLemmas QuietLemmas Check Monitors Pf_Calls Pf_Hist.
 
 (* drop(guard) / unlock(guard): exactly the guard's holds are released, the table is what it was before the
    acquisition *)
@@ -54,7 +54,33 @@ Proof.
   - intros x Hx. apply Hfree. now rewrite leaves_kleaves.
 Qed.
 
+(* ---------------------------------------------------------------- every history *)
+(* For EVERY fault-free history (any number of threads, any interleaving of whole calls, any collections of any
+   kind / nesting, any holds of other threads present from the start) the monitor that the check evaluates on the
+   implementation's observation holds of the model's observation.  The hypotheses are decidable ([wf_histb]) and
+   evaluated on every generated scenario. *)
+Theorem C03_every_history :
+  forall sc, wf_histb sc = true -> mon_C03 sc (model_obs sc) = true.
+Proof. exact C03_all_histories_dec. Qed.
+Check C03_every_history : forall sc, wf_histb sc = true -> mon_C03 sc (model_obs sc) = true.
+
+(* the hypotheses are met by a non-trivial scenario: two threads, a boxed collection over a mutex and a poisonable
+   rwlock, a retrying collection sharing the mutex, a lock held by a third party from the start, guards, a scoped
+   call whose closure panics, a forgotten guard, formatting while holding, a try that fails *)
+Definition ex_hist : scen :=
+  mks 3 1 [0; 1; 2] []
+      [SLeaf KMutex 0; SPoison 0 (SLeaf KRw 1); SBoxed (SSeq [SLeaf KMutex 0; SPoison 0 (SLeaf KRw 1)]);
+       SRetry (SSeq [SLeaf KMutex 0; SLeaf KMutex 2])]
+      [(2, mkraw (Some 100) [])] [] [] 4
+      [(0, AKeyGet); (0, AAcquire 2 Ex FGuard); (0, AFmt 2); (1, AKeyGet); (1, AAcquire 3 Ex FTry); (1, AFmt 3);
+       (0, AGuardRead 1); (0, AGuardUnlock); (0, AAcquire 1 Sh (FScoped true [CRead 0; CPanic])); (0, AIsPoisoned 1);
+       (0, AAcquire 0 Ex FGuard); (0, AGuardForget); (1, AAcquire 0 Ex FTry); (1, AKeyDrop); (0, AKeyGet)].
+Example C03_every_history_nonvacuous :
+  wf_histb ex_hist = true /\ length (model_obs ex_hist) = 15 /\ mon_C03 ex_hist (model_obs ex_hist) = true.
+Proof. vm_compute. repeat split. Qed.
+
 Print Assumptions C03_guard_drop_releases_all.
 Print Assumptions C03_unlock_step.
 Print Assumptions C03_scoped_restores.
 Print Assumptions C03_no_self_wait.
+Print Assumptions C03_every_history.
